@@ -352,7 +352,7 @@ func GenRefCase(s Src) *RefCase {
 	// target and reference
 	nodes := root.all(nil)
 	target := nodes[s.Intn(len(nodes))]
-	if chance(s, 1, 4) {
+	if chance(s, 1, 4) || (c.Holder == "storage" && chance(s, 1, 3)) {
 		target = root
 	} else if chance(s, 1, 3) { // prefer deep targets
 		for _, x := range nodes {
